@@ -538,6 +538,10 @@ func runC02(r *hx.Run, replay string) {
 			c02Binary(r, cs)
 		}
 	}
+	// the model the C02 theorems about InjectDiagnostics rest on (Model/Inject) against the real function
+	for i := 0; i < 1500; i++ {
+		c06Inject(r)
+	}
 	corpus := c02Corpus()
 	r.Note("seed corpus: %d YAML documents from the repository", len(corpus))
 	for _, s := range c02Snippets {
